@@ -376,7 +376,7 @@ func genC09Plan(r *zsim.Rng) *sysPlan {
 	if r.Chance(1, 5) {
 		p.Rows = r.Range(3, 6)
 	}
-	p.Match.Tac = false
+	p.Match.Tac = r.Chance(1, 4)
 	n := []int{0, 1, 2, r.Range(3, 12), r.Range(10, 60), r.Range(50, 400)}[r.Intn(6)]
 	p.Lines = lineSpec{N: n, Seed: r.Seed53(), Shape: r.Intn(4)}
 	switch r.Intn(4) {
@@ -613,6 +613,11 @@ func (st *c09State) refreshList(r *sysRun) {
 	hadList := st.listValid
 	m.list = indicesOf(freshFilter(items, string(m.query), mc))
 	st.listValid = true
+	if st.track && r.plan.Match.Tac && !had && len(m.list) > 1 {
+		// --track coming from an empty list attaches the cursor to Merger.First(), which under --tac without
+		// sorting is the last position; which position the cursor starts from is not part of C09
+		st.cursorLoose = true
+	}
 	if st.track && !hadList && len(m.query) > 0 && len(m.list) > 1 {
 		// initial query + --track: while the input was loading the cursor followed the first item of
 		// whichever partial list came first
